@@ -77,6 +77,9 @@ def run_script(impl, cfg, script, nslots, seed=0, preempt=False):
             elif k == 'disconnectall':
                 w.nreq += 1
                 w.app_disconnect_with_id(None, w.nreq)
+            elif k == 'shutdown':
+                w.nreq += 1
+                w.app_shutdown(w.nreq)
             elif k == 'transport':
                 w.app_transport(op['s'])
             elif k == 'sessctx':
@@ -163,6 +166,8 @@ def can(w, op):
         return len(w.slots) < w.max_slots
     if k == 'tick':
         return True
+    if k == 'shutdown':
+        return not getattr(w, 'shut', False)      # at most once (see EioServer!AppShutdown)
     s = op.get('s')
     if s is not None and s not in w.sids:
         return False
@@ -184,7 +189,7 @@ FRAMES = ['PINGprobe', 'UPGRADE', 'PONG', 'm1', 'm3', 'mE1', 'CLOSE', 'BAD7', 'O
 def gen_script(rng, nslots, length, weights=None, horizon=200, tstep=(1, 24)):
     wts = {'open': 3, 'openrej': 1, 'openws': 1, 'poll': 6, 'post': 6, 'upgrade': 2,
            'wsframe': 8, 'wsframes': 2, 'wsdrop': 1, 'send': 6, 'disconnect': 1, 'save': 1, 'get': 1,
-           'transport': 1, 'sessctx': 1, 'disconnectall': 0, 'apiunknown': 1, 'tick': 6}
+           'transport': 1, 'sessctx': 1, 'disconnectall': 0, 'apiunknown': 1, 'shutdown': 0, 'tick': 6}
     if weights:
         wts.update(weights)
     kinds = [k for k in wts if wts[k] > 0]
@@ -212,8 +217,8 @@ def gen_script(rng, nslots, length, weights=None, horizon=200, tstep=(1, 24)):
         elif k == 'tick':
             t += rng.randint(*tstep)
             script.append({'op': 'tick', 't': t})
-        elif k == 'disconnectall':
-            script.append({'op': 'disconnectall'})
+        elif k in ('disconnectall', 'shutdown'):
+            script.append({'op': k})
         elif k == 'apiunknown':
             script.append({'op': 'apiunknown', 'variant': rng.randint(0, 5),
                            'call': rng.choice(['send', 'get', 'save', 'transport', 'sessctx',
